@@ -212,6 +212,50 @@ def step(fc: int, fp: int, count: int, last: int, dt: int) -> str:
     return ""
 
 
+_CACHE = {}
+
+
+def _stepped_trace():
+    if "v" not in _CACHE:
+        from vlib.stepper import stepify
+        from deep.processor.trigger_handler import TriggerHandler
+        _CACHE["v"] = stepify(TriggerHandler._TriggerHandler__trace_call, set(), owner=TriggerHandler)
+    return _CACHE["v"]
+
+
+def concurrent(fc: int, p1: int, t1: int) -> str:
+    """
+    Two threads reach the same tracepoint at the same time: each runs the statement-stepped real trace handler body
+    (check -> collect -> record on leaving the action context); schedule = one pre-emption at a SYMBOLIC step index.
+    Collections never exceed fire_count.
+    PRE: 1 <= fc <= 2 and 0 <= p1 <= 60 and 0 <= t1 <= 1
+    POST: _ == ""
+    """
+    world.begin_path()
+    import types
+    from vlib.stepper import Sched, gen_call
+    from deep.api.tracepoint.trigger import build_trigger
+    fc, t1 = world.realize(fc), world.realize(t1)
+    w = World()
+    w.install([build_trigger("tp1", "f.py", 7, {"fire_count": fc, "fire_period": "0", "frame_type": "no_frame"}, [], [])])
+    g = _stepped_trace()
+    sched = Sched(preempt=[(p1, t1)], picks=[])
+
+    def hit(i):
+        frame = FakeFrame("/app/f.py", "fn", 7, {"x": i})
+        yield from g(w.handler, frame, "line", None)
+    sched.spawn("t0", hit(0))
+    sched.spawn("t1", hit(1))
+    sched.spawn("t2", hit(2))
+    sched.run()
+    world.reached()
+    if len(w.push.snapshots) > fc:
+        return "C04:concurrent:fire_count-exceeded"
+    if len(w.push.snapshots) < min(fc, 3):
+        return "C04:concurrent:permitted-hit-lost"
+    return ""
+
+
 # ---- sensitivity twins: in-memory mutations of the anchored kernel (repo untouched) -------------------------------
 def _mut_fire_not_counted():
     from deep.api.tracepoint.tracepoint_config import TracepointExecutionStats
@@ -249,6 +293,13 @@ CONDITIONS = [
          bounds="window bounds unbounded ints >= 0 set on the action config; 3 hits"),
     dict(fn="window_args", cubes={"quick": [""], "thorough": [""]}, twins=["reach"],
          bounds="window bounds unbounded ints >= 0 given as tracepoint args; 1 hit"),
+    dict(fn="concurrent", cubes={"quick": ["fc == 1"], "thorough": ["fc == 1", "fc == 2"]}, twins=[],
+         bounds="3 threads hitting one tracepoint (fire_count 1-2), statement-stepped real handler, one pre-emption at a symbolic step"),
     dict(fn="step", cubes={"quick": [""], "thorough": [""]}, twins=["reach", "mutant:fire_not_counted", "mutant:period_le"],
          bounds="one hit from an arbitrary limiter state (inductive step: histories of any length)"),
 ]
+
+try:
+    _stepped_trace()
+except Exception:
+    pass
